@@ -180,6 +180,15 @@ class Engine:
         if ty == BYTES:
             return v.z[2].z > 0
         if isinstance(ty, TMatch):
+            kind, _, pattern = v.z[0].partition(":")
+            if kind == "fullmatch":
+                # exact: the subject is in the language of the pattern (ASCII reading of the classes)
+                from . import regex
+
+                try:
+                    return z3.InRe(v.z[1], regex.to_z3(pattern)[0])
+                except regex.Unsupported:
+                    pass
             return smt.bool_fn(f"re.match({v.z[0]!r})")(v.z[1])
         if ty == BOOL:
             return v.z
@@ -650,6 +659,10 @@ class Engine:
                 return [(s, Val(TFunc(), ("bound", con, recv)))]
             if attr == "__class__":
                 return [(s, Val(TConst(), ("class", ty.cls)))]
+            for c in [ty.cls] + CLASSES[ty.cls]["bases"]:
+                for modname in CLASS_MODULES.get(c, []):
+                    if f"{c}.{attr}" in source.load(modname).class_consts:
+                        return [(s, self.class_const(s, modname, f"{c}.{attr}", exc))]
             owner = field_owner(ty.cls, attr)
             if owner is None:
                 raise OutOfSubset(f"attribute {ty.cls}.{attr} at L{line}")
@@ -1158,11 +1171,24 @@ class Engine:
             s.heap[f"LHI.{k}"] = z3.Store(H, r, smt.fresh("hv.hi", smt.Int))
             for nm in (f"LA.{k}", f"LLO.{k}", f"LHI.{k}"):
                 self.note_write(nm, r)
+        elif kind == "dict-maps":
+            # all dictionaries of one key/value type may change (the ensures clause frames the others)
+            _, kty, vty = loc
+            nh, has, nv, val = dict_maps(s, kty, vty)
+            szn = f"DSZ.{sort_key(kty)}.{sort_key(vty)}"
+            size = s.hmap(szn, smt.Int, smt.Int)
+            for nm, m in ((nh, has), (nv, val), (szn, size)):
+                s.heap[nm] = smt.fresh(f"hv.{nm}", m.sort())
+                self.note_write(nm)
         elif kind == "map":
             _, name = loc
             m = s.heap.get(name)
             if m is None:
-                raise OutOfSubset(f"havoc of unknown map {name}")
+                from .values import MAP_SORTS
+
+                if name not in MAP_SORTS:
+                    raise OutOfSubset(f"havoc of unknown map {name}")
+                m = s.hmap(name, *MAP_SORTS[name])
             s.heap[name] = smt.fresh(f"hv.{name}", m.sort())
             self.note_write(name)
         elif kind == "fresh-lists":
@@ -1611,6 +1637,19 @@ class Engine:
         if isinstance(ty, TDict):
             dv = DictView(s, recv.z, ty.key, ty.val)
             nh, has, nv, val = dict_maps(s, ty.key, ty.val)
+            if name == "setdefault" and len(pos) == 2:
+                kz = pack(pos[0], ty.key)
+                dz = pack(self.coerce(s, pos[1], ty.val, "setdefault", line, exc), ty.val)
+                known = has[recv.z][kz]
+                res = z3.If(known, val[recv.z][kz], dz)
+                s.heap[nh] = z3.Store(has, recv.z, z3.Store(has[recv.z], kz, z3.BoolVal(True)))
+                s.heap[nv] = z3.Store(val, recv.z, z3.If(known, val[recv.z], z3.Store(val[recv.z], kz, dz)))
+                szn = f"DSZ.{sort_key(ty.key)}.{sort_key(ty.val)}"
+                size = s.hmap(szn, smt.Int, smt.Int)
+                s.heap[szn] = z3.Store(size, recv.z, size[recv.z] + z3.If(known, 0, 1))
+                for nm in (nh, nv, szn):
+                    self.note_write(nm, recv.z)
+                return [(s, unpack(ty.val, res))]
             if name == "get":
                 kz = pack(pos[0], ty.key)
                 if len(pos) == 1:
